@@ -139,6 +139,23 @@ def childBelow (P : St) : St → Option St
 def specChild (cur P : St) : Option St :=
   if cur = P then some cur else childBelow P cur
 
+/-! ### fall-through states (handlers without final `else`): vocabulary of the C24 statements -/
+
+/-- the same chart with every handler given its final `else: temp = parent; return SUPER` -/
+def Chart.noFall (c : Chart) : Chart := { c with fall := fun _ => false }
+
+/-- no fall-through state on the path of `X` (`X` itself and the states enclosing it; `top` is
+not a handler of the chart) -/
+def Clear (c : Chart) (X : St) : Prop := ∀ x, x ≠ [] → x <:+ X → c.fall x = false
+
+/-- the targets of the initial transitions followed from `t` (at most `fuel` of them) -/
+def initChain (c : Chart) : Nat → St → List St
+  | 0, _ => []
+  | fuel + 1, t =>
+    match c.init t with
+    | none => []
+    | some tgt => tgt :: initChain c fuel tgt
+
 /-- well-formed charts (the class the property quantifies over) -/
 structure WF (c : Chart) : Prop where
   /-- initial transitions go to proper descendants -/
@@ -149,5 +166,7 @@ structure WF (c : Chart) : Prop where
   tran_ne_top : ∀ s n t, c.react s n = .tran t → t ≠ []
   /-- no handler returns `None` -/
   no_none : ∀ s n, c.react s n ≠ .none
+  /-- every handler ends in `else: temp = parent; return SUPER` (no fall-through state) -/
+  no_fall : ∀ s, c.fall s = false
 
 end Miros.Hsm
